@@ -300,7 +300,8 @@ def _resolve_loop_keys(fn, headers):
             for n in find_all(m.group(1)):
                 f2.hints['loop-%d-%s' % (n, m.group(2))] = subst(v, n)
         else:
-            f2.hints[key] = v
+            m2 = re.match(r'^loop-(\d+)-', key)
+            f2.hints[key] = subst(v, int(m2.group(1))) if m2 else v
     return f2
 
 
